@@ -72,7 +72,8 @@ PROPS = {
                 "target and source-unmodified; non-trivial = >= 3 calls and >= 1 insertion; distinct = distinct event-log digests",
         "real": ["Hugr.insert_hugr and the graph store; builders' insert_* wrappers (engine-B leg)"], "stub": [],
         "expected_probes": ["insert_source_with_holes", "insert_into_freed_indices", "inserted_order_links",
-                            "inserted_parallel_links", "inserted_nodes_with_metadata", "non_monotone_mapping"],
+                            "inserted_parallel_links", "inserted_nodes_with_metadata", "non_monotone_mapping", "builder_insert:dfg",
+                            "builder_insert:cfg", "builder_insert:conditional", "builder_insert:tailloop"],
         "technique": "seeded interleaved mutation histories on target and source graphs with insertion steps, isomorphism + frame-condition oracle on public observations before/after; choice-trace minimisation; fresh-interpreter replay",
         "level_text": "Insertion is checked on graphs that have a history, because that is where its defect classes live (index holes in the source, freed indices reused in the target so the mapping is not monotone, ports with several links, order links, metadata). The oracle observes both HUGRs through public queries before and after and checks isomorphism, root placement, frame and source-unmodified independently of the implementation's own mapping logic.",
         "level_note": "Trusted: oracles/iso.py. Later aliasing of metadata dicts between source and target is not asserted (the statement is about the moment of insertion). Operations are compared by identity or dataclass equality.",
@@ -197,7 +198,8 @@ PROPS = {
                 "node-as-wire, port equality/hash; non-trivial = >= 3 builder/graph calls; distinct = distinct event-log digests",
         "real": ["hugr.hugr.node_port (Node, ports, index normalisation), handle re-issue in the graph store, builders"], "stub": [],
         "expected_probes": ["handle:add_op", "handle:call", "handle:load", "handle:nested-dfg-closed", "handle:conditional-closed",
-                            "handle:tail-loop-closed", "handle:cfg-closed", "graph_handle_known", "graph_handle_unknown"],
+                            "handle:tail-loop-closed", "handle:cfg-closed", "graph_handle_known", "graph_handle_unknown",
+                            "handle:insert_dfg", "handle:insert_cfg", "handle:insert_conditional", "handle:insert_tailloop"],
         "technique": "handles harvested from seeded builder/graph histories (the count is a temporal fact: unknown until outputs are set), each probed against range(n) semantics; choice-trace minimisation",
         "level_text": "The index algebra alone would be a pure function; what makes the property a history property is that the count a handle knows is fixed when the handle is issued and the library re-issues handles as builders learn their outputs. The check therefore harvests every handle real histories produce (with the count the reference semantics gives) and probes each against Python's range(n) indexing/slicing rules as the statement words them.",
         "level_note": "Trusted: range(n) as the indexing reference; the generator's knowledge of each operation's output arity. load_function is not in the statement's list and its handle is not probed.",
